@@ -682,7 +682,13 @@ class Unit:
                     sig = it.opts.get("sig")
                     if not sig:
                         raise UnitError("closure item %s needs `sig`" % it.name)
-                    it.text = sig.strip() + " " + it.text
+                    tail = it.opts.get("tail")
+                    if tail:
+                        # match-arm lifting: the arm falls through to the code after the `match`; `tail` is that code
+                        # (declared in unit.toml, checked against the source by the `after_match` anchor below)
+                        it.text = sig.strip() + " { " + it.text + "\n" + tail.strip() + "\n}"
+                    else:
+                        it.text = sig.strip() + " " + it.text
                     it.kind = "fn"
                     self._count("R19", 1)
                 t = self.rewrite(it)
